@@ -23,7 +23,7 @@ CHECKS = {
               'research.backtest under the tracer; every fill, every end of minute and every end of chunk is judged against '
               'the independent intra-minute path model (fill on the remaining path, path order respected, nothing in range left '
               'active, market orders executed at once at the current price). Held on the executions explored.'),
-        note='trusts vf/pathmon.py (polyline model) and vf/gen.normalise; fast simulator judged per minute/chunk range only',
+        note='trusts vf/pathmon.py (polyline model) and vf/gen.normalise; the fast simulator is judged with the same model minute by minute inside each chunk',
         ref='DESIGN.md section 3 C02'),
     'C08': dict(
         technique='event-trace monitor over bounded-exhaustive lattice arrangements executed by the real step simulator + split_candle oracle',
@@ -83,7 +83,7 @@ CHECKS = {
               'each fill must be followed by exactly the hook its effect implies with the implied position size, each completed '
               'cycle by exactly one closed trade matching the cycle\'s fills, and in futures the closed trades\' net PnL must equal '
               'the wallet change (and net_profit the balance change).'),
-        note='two genuine defects are recorded as known findings (oversize reduce-only close, flip), keyed by mechanism',
+        note='one genuine defect is recorded as a known finding (position flip reported as a single open), keyed by mechanism; the oversize reduce-only booking defect was repaired',
         ref='DESIGN.md section 3 C06'),
     'C09': dict(
         technique='offline trace checker over steered sessions (entry planned, candles built around the reference liquidation level)',
